@@ -25,7 +25,11 @@ def dest1(i):
 
 
 def bitb(i):
-    return ", %d" % i.operands[1]
+    return ", %d" % i.operands[1].value
+
+
+def flag0(i):
+    return "%d" % i.operands[0].value
 
 
 def accessbank(i):
@@ -65,6 +69,8 @@ PIC_full_formats = {
     "LFSR": [mnemo, op0, op1],
     "decode_movff": [mnemo, op0, op1],
     "CALL": format_call,
+    "RETURN": [mnemo, flag0],
+    "RETFIE": [mnemo, flag0],
     "MOVWF": [mnemo, op0, accessbank],
     "CLRF": [mnemo, op0, accessbank],
     "MULWF": [mnemo, op0, accessbank],
